@@ -1941,6 +1941,8 @@ coap_retransmit(coap_context_t *context, coap_queue_t *node) {
     ssize_t bytes_written;
     coap_tick_t now;
     coap_tick_t next_delay;
+    int is_mcast;
+    coap_mid_t id;
 
     node->retransmit_cnt++;
     coap_handle_event_lkd(context, COAP_EVENT_MSG_RETRANSMITTED, node->session);
@@ -1977,9 +1979,16 @@ coap_retransmit(coap_context_t *context, coap_queue_t *node) {
 
     if (node->session->con_active)
       node->session->con_active--;
+    /*
+     * A (D)TLS failure in coap_send_pdu() disconnects the session, which
+     * deletes every queue entry of the session including this node: take
+     * what is needed afterwards before sending.
+     */
+    is_mcast = node->is_mcast;
+    id = node->id;
     bytes_written = coap_send_pdu(node->session, node->pdu, node);
 
-    if (node->is_mcast) {
+    if (is_mcast) {
       coap_session_connected(node->session);
       coap_delete_node_lkd(node);
       return COAP_INVALID_MID;
@@ -1987,13 +1996,13 @@ coap_retransmit(coap_context_t *context, coap_queue_t *node) {
     if (bytes_written == COAP_PDU_DELAYED) {
       /* PDU was not retransmitted immediately because a new handshake is
          in progress. node was moved to the send queue of the session. */
-      return node->id;
+      return id;
     }
 
     if (bytes_written < 0)
       return (int)bytes_written;
 
-    return node->id;
+    return id;
   }
 
   /* no more retransmissions, remove node from system */
@@ -2875,24 +2884,16 @@ hnd_get_wellknown_lkd(coap_resource_t *resource,
     data_string->length = len;
 
     if (!(session->block_mode & COAP_BLOCK_USE_LIBCOAP)) {
-      if (!coap_insert_option(response, COAP_OPTION_CONTENT_FORMAT,
-                              coap_encode_var_safe(buf, sizeof(buf),
-                                                   COAP_MEDIATYPE_APPLICATION_LINK_FORMAT), buf)) {
-        goto error;
-      }
-      if (response->used_size + len + 1 > response->max_size) {
-        /*
-         * Data does not fit into a packet and no libcoap block support
-         * +1 for end of options marker
-         */
-        coap_log_debug(".well-known/core: truncating data length to %zu from %zu\n",
-                       len, response->max_size  - response->used_size - 1);
-        len = response->max_size - response->used_size - 1;
-      }
-      if (!coap_add_data(response, len, data_string->s)) {
-        goto error;
-      }
+      /*
+       * No libcoap block support: serve the block that is asked for (or the
+       * first one if the data does not fit into a packet) from this rendering.
+       */
+      coap_add_data_blocked_response(request, response,
+                                     COAP_MEDIATYPE_APPLICATION_LINK_FORMAT, -1,
+                                     len, data_string->s);
       free_wellknown_response(session, data_string);
+      coap_delete_string(filter);
+      return;
     } else if (!coap_add_data_large_response_lkd(resource, session, request,
                                                  response, query,
                                                  COAP_MEDIATYPE_APPLICATION_LINK_FORMAT,
